@@ -49,3 +49,15 @@ Definition hash_eq (k1 v1 : list Z) (s1 m1 : option Z) (k2 v2 : list Z) (s2 m2 :
   | Ok t1, Ok t2 => Some (tbl_eq Z Z.eqb 0 t1 t2, dict_eqb (dc k1 v1 s1) (dc k2 v2 s2))
   | _, _ => None
   end.
+
+(* two tables added with + : the code's answer (Hash.tbl_add: refused unless the key arrays coincide; items of the sum otherwise) and the
+   key-wise sum of the two dictionaries *)
+Definition hash_add (k1 v1 : list Z) (s1 : option Z) (k2 v2 : list Z) (s2 : option Z) (m : option Z) : option (res (list (Z * Z)) * list (Z * Z)) :=
+  let md (k : list Z) := match m with Some x => x | None => default_mod (zlen k) end in
+  let tb k v s := match s with Some c => mk_scalar Z k c (md k) | None => mk Z k v (md k) end in
+  let dc (k v : list Z) (s : option Z) := match s with Some c => map (fun x => (x, c)) k | None => combine k v end in
+  match tb k1 v1 s1, tb k2 v2 s2 with
+  | Ok t1, Ok t2 => Some (rmap (items Z 0) (tbl_add Z Z.add t1 t2),
+                          map (fun kv => (fst kv, snd kv + match aget Z (dc k2 v2 s2) (fst kv) with Some v => v | None => 0 end)) (dc k1 v1 s1))
+  | _, _ => None
+  end.
